@@ -647,7 +647,8 @@ func (*c19) Corpus() []any {
 			{Name: "private", URL: "https://private.corp.test/charts", User: "user-private", Pass: "pw-private", URLs: []string{"http://private.corp.test/charts/a-1.0.0.tgz"}}},
 			Note: "manager-foreign-owner-scheme"},
 		// net/http keeps the Authorization header when redirected to the same host name on
-		// another port / scheme or to a sub-domain
+		// another port / scheme or to a sub-domain (related domain: observed, not flagged); on a
+		// redirect to an unrelated domain it must be gone
 		c19Case{Kind: "getter", Ctor: []c19Opt{{K: "url", A: "https://repo.example/charts"}, {K: "auth", A: "user-g", B: "pw-g"}},
 			Gets:     []c19Get{{Href: "https://repo.example/charts/a-1.0.0.tgz"}},
 			Redirect: map[string]string{"repo.example/charts/a-1.0.0.tgz": "http://repo.example:8080/_landed/a-1.0.0.tgz"}, Note: "redirect-related"},
@@ -968,13 +969,17 @@ func c19HostName(h string) string {
 	return strings.ToLower(h)
 }
 
-// net/http copies the Authorization header to a redirect target whose host NAME is the
-// initial one or a sub-domain of it (any port, any scheme); that is the recorded finding.
-// Credentials arriving at any other redirect target would be a different violation.
+// Redirect follow-ups.  The property forbids credentials on "redirects to an unrelated
+// domain".  net/http forwards the Authorization header only to a target whose host NAME is the
+// initial one or a sub-domain of it (any port, any scheme) — a related domain, which the
+// property text leaves to the HTTP client; such follow-ups are counted (report.extra), not
+// flagged.  A pair arriving at any other redirect target is a violation ("" = not flagged).
 func c19RedirectSig(first, dest string) string {
 	a, b := c19HostName(first), c19HostName(dest)
 	if a == b || strings.HasSuffix(b, "."+a) {
-		return "redirect-related-host-keeps-credentials"
+		n, _ := hx.Extra["redirects_to_related_host_forwarding_authorization (net/http policy, observed)"].(int)
+		hx.Extra["redirects_to_related_host_forwarding_authorization (net/http policy, observed)"] = n + 1
+		return ""
 	}
 	return "redirect-unrelated-host-keeps-credentials"
 }
@@ -1107,6 +1112,9 @@ func (*c19) Oracle(ci, oi any) []hx.Violation {
 				if rq.Follow {
 					sig = c19RedirectSig(first, rq.Host)
 				}
+				if sig == "" {
+					continue
+				}
 				flag(sig, fmt.Sprintf("getter configured for %q sent its credentials to %s://%s%s without pass-credentials", s.url, rq.Scheme, rq.Host, rq.Path))
 			}
 		}
@@ -1141,6 +1149,9 @@ func (*c19) Oracle(ci, oi any) []hx.Violation {
 			sig := c.Kind + "-foreign-origin"
 			if rq.Follow {
 				sig = c19RedirectSig(first, rq.Host)
+			}
+			if sig == "" {
+				continue
 			}
 			flag(sig, fmt.Sprintf("%s: credentials of %s (%s) were sent to %s://%s%s without pass-credentials", c.Kind, s.what, s.url, rq.Scheme, rq.Host, rq.Path))
 		}
